@@ -33,11 +33,13 @@ Mismatch(o) ==       \* compares the PRIMED model state with the observation o
     \cup (IF sent' # ToSetS(o.sent) THEN {"conf.sent"} ELSE {})
     \cup (IF dropped' # ToSetS(o.dropped) THEN {"conf.dropped"} ELSE {})
     \cup (IF maxw' # o.maxw THEN {"conf.maxw"} ELSE {})
+    \cup (IF closed' # o.closed THEN {"conf.closed"} ELSE {})
 
 (* ---------------------------------------------------------------- property rules *)
 StreamRules(o) ==
     (IF o.maxw > 1 THEN {"C39.overlapping-connection-writes"} ELSE {})
     \cup (IF \E i \in 1..Len(o.wire) : o.wire[i] < 0 THEN {"C23.malformed-output-stream"} ELSE {})
+    \cup (IF \E i \in 1..Len(o.wire) : o.wire[i] = DiscId /\ i < Len(o.wire) THEN {"C23.packet-after-disconnect"} ELSE {})
     \cup (IF \E i, j \in 1..Len(o.wire) : i < j /\ o.wire[i] = o.wire[j] /\ o.wire[i] > 0 THEN {"C03.packet-written-twice"} ELSE {})
     \cup (IF \E i, j \in 1..Len(o.wire) : i < j /\ o.wire[i] > 0 /\ o.wire[j] > 0 /\ (o.wire[i] > 200) = (o.wire[j] > 200) /\ o.wire[i] > o.wire[j]
           THEN {"C12.out-of-order-on-connection"} ELSE {})
@@ -45,6 +47,9 @@ StreamRules(o) ==
     \cup (IF \E x \in ToSetS(o.wire) : x > 0 /\ x \notin given' THEN {"C03.unknown-packet-written"} ELSE {})
 
 EndRules(o) ==
+    IF o.closed THEN      \* the broker has ended the connection (DISCONNECT): what was queued behind it is not owed any more
+        (IF DiscId \in ToSetS(o.sent) /\ DiscId \notin ToSetS(o.wire) THEN {"C23.disconnect-reported-but-not-written"} ELSE {})
+    ELSE
     (IF o.ob > 0 THEN {"C34.bytes-stranded-in-buffer"} ELSE {})
     \cup (IF ~(ToSetS(o.sent) \subseteq ToSetS(o.wire)) THEN {"C34.reported-sent-not-on-wire"} ELSE {})
     \cup (IF \E x \in given : x \notin ToSetS(o.wire) /\ x \notin ToSetS(o.dropped) THEN {"C34.packet-neither-written-nor-reported-dropped"} ELSE {})
@@ -57,15 +62,16 @@ Reset(e) ==
     /\ q' = <<>> /\ cur' = [w \in W |-> NoPk] /\ pc' = [w \in W |-> "idle"] /\ lock' = "none" /\ outbuf' = <<>>
     /\ pend' = [w \in W |-> <<>>] /\ fl' = [w \in W |-> FALSE] /\ qseen' = [w \in W |-> 0]
     /\ wire' = <<>> /\ sent' = {} /\ dropped' = {} /\ acc' = {} /\ npub' = 0 /\ ndir' = 0 /\ inwrite' = {} /\ maxw' = 0 /\ hist' = <<>>
+    /\ closed' = FALSE /\ disc' = FALSE /\ refd' = [w \in W |-> FALSE]
     /\ scen' = [name |-> e.name, line |-> l, cap |-> e.cap]
     /\ confOK' = TRUE /\ reported' = {} /\ given' = {} /\ bad' = bad
 
 Follow(e) == Next /\ hist' = Append(hist, <<e.w, e.g, e.og>>)
 
 NPub == Cardinality({x \in given : x < 200})
-NDir == Cardinality({x \in given : x > 200})
+NDir == Cardinality({x \in given : x > 200 /\ x < DiscId})
 Ghost(e) ==
-    given' = IF e.w = "env" THEN given \cup {IF e.g = "ping" THEN 200 + NDir + 1 ELSE 100 + NPub + 1} ELSE given
+    given' = IF e.w = "env" THEN given \cup {IF e.g = "ping" THEN 200 + NDir + 1 ELSE IF e.g = "bad" THEN DiscId ELSE 100 + NPub + 1} ELSE given
 
 Complain(c, e) ==
     /\ reported' = reported \cup c
